@@ -365,16 +365,18 @@ theorem run_wf (t : ITier Int) (hwf : t.WF) (ops : List Op) (h : Admissible t op
 theorem pinsert_nocollision (t : PTier Int) (x : Pt Int) (mode : InsMode) (hfree : ∀ p ∈ t.ps, p.t ≠ x.t) :
     t.insertEntry x mode = .ok (growSpanP t (sortPts (t.ps ++ [{ x with l := pyStrip x.l }]))) := by
   unfold PTier.insertEntry
-  have : t.ps.find? (fun p => p.t == x.t) = none := by
-    rw [List.find?_eq_none]; intro p hp; simpa using hfree p hp
+  have : t.ps.filter (fun p => p.t == x.t) = [] := by
+    rw [List.filter_eq_nil_iff]; intro p hp; simpa using hfree p hp
   simp [this, bind, Except.bind, pure, Except.pure]
 
 theorem pinsert_error (t : PTier Int) (x : Pt Int) (p : Pt Int) (hp : p ∈ t.ps) (hpt : p.t = x.t) :
     t.insertEntry x .error = .error .CollisionError := by
   unfold PTier.insertEntry
-  cases hf : t.ps.find? (fun q => q.t == x.t) with
-  | none => rw [List.find?_eq_none] at hf; have := hf p hp; simp [hpt] at this
-  | some old => simp [hf, bind, Except.bind, throw, throwThe, MonadExceptOf.throw]
+  have hne : (t.ps.filter (fun q => q.t == x.t)).isEmpty = false := by
+    cases hf : t.ps.filter (fun q => q.t == x.t) with
+    | nil => rw [List.filter_eq_nil_iff] at hf; have := hf p hp; simp [hpt] at this
+    | cons a as => rfl
+  simp [hne, bind, Except.bind, throw, throwThe, MonadExceptOf.throw]
 
 /-! ## non-vacuity -/
 example : C07.exTier.WF := C07.exTier_wf
